@@ -6,12 +6,12 @@
  'inject': [{'file': 'compat/libc/string/strtok.c', 'func': 'strtok_r', 'at': 'func-begin',
              'ghost': 'g_strchr_L = g_strtok_Ld; g_strchr_k = g_strtok_j;'},
             {'file': 'compat/libc/string/strtok.c', 'func': 'strtok_r', 'loop': 0, 'expect': 'do',
-             'assigns': 'str, ch, g_strchr_end, g_strtok_w, g_strtok_t',
+             'assigns': 'str, ch, g_strchr_end, g_strtok_w, g_strtok_t, g_strtok_next',
              'invariants': ['__CPROVER_same_object(str, g_strtok_S) && C08_IDX(str, g_strtok_S) <= g_strtok_L',
                             'C08_IMP(g_strtok_k < C08_IDX(str, g_strtok_S), g_strtok_v != 0 && C08_W_NOW <= g_strtok_Ld && delim[C08_W_NOW] == g_strtok_v && C08_IMP(g_strtok_j < C08_W_NOW, delim[g_strtok_j] != 0))'],
              'decreases': 'g_strtok_L - C08_IDX(str, g_strtok_S)'},
             {'file': 'compat/libc/string/strtok.c', 'func': 'strtok_r', 'loop': 0, 'at': 'body-begin',
-             'ghost': 'if (C08_IDX(str, g_strtok_S) == g_strtok_k + 1) g_strtok_w = g_strchr_end; g_strtok_t = C08_IDX(str, g_strtok_S);'},
+             'ghost': 'if (C08_IDX(str, g_strtok_S) == g_strtok_k + 1) g_strtok_w = g_strchr_end; g_strtok_t = C08_IDX(str, g_strtok_S); g_strtok_next = g_strtok_t;'},
             {'file': 'compat/libc/string/strtok.c', 'func': 'strtok_r', 'at': 'before', 'anchor': '*saveptr = str + strcspn(str, delim);',
              'ghost': 'g_strtok_t = C08_IDX(str, g_strtok_S) - 1; if (g_strtok_k + 1 < C08_IDX(str, g_strtok_S)) g_strtok_w = C08_W_NOW; if (g_strtok_k == g_strtok_t) g_strtok_w = g_strchr_end; g_strcspn_L = g_strtok_L - C08_IDX(str, g_strtok_S); g_strcspn_Lr = g_strtok_Ld; g_strcspn_k = g_strtok_k - C08_IDX(str, g_strtok_S); g_strcspn_j = g_strtok_j;'},
             {'file': 'compat/libc/string/strtok.c', 'func': 'strtok_r', 'at': 'after', 'anchor': '*saveptr = str + strcspn(str, delim);',
@@ -20,7 +20,7 @@
              'ghost': 'g_strtok_next = C08_IDX(*saveptr, g_strtok_S);'}],
  'ghost_calls': ['C08_IDX'],
  'kf': ['C08_strtok_r_saveptr'], 'kf_probe_case': {'C08_strtok_r_saveptr': {'C08_FIXOFF': 0, 'FIRST': 1}},
- 'params': {'C08_FIXOFF': [0, 3], 'FIRST': [0, 1]},
+ 'params': {'C08_FIXOFF': [0], 'FIRST': [0, 1]}, 'params_thorough': {'C08_FIXOFF': [0, 3], 'FIRST': [0, 1]},
  'assumptions': ['strtok_r: the string, delim and the saveptr variable are three distinct objects'],
  'witness': {'unwind': 8},
 } @*/
